@@ -301,4 +301,39 @@ theorem resume_key_silent (v : Tup) : nestedEnc "SMB_RESUME_KEY" v = none := by
 theorem dir_info_silent (v : Tup) : nestedEnc "SMB_DIRECTORY_INFORMATION" v = none := by
   simp [nestedEnc]
 
+/-! ### list elements: conformance on the value handed to the encoder -/
+
+theorem silent_conforms_in (C : Codecs) (typ : String) (h : ∀ v, nestedEnc typ v = none) :
+    NestedConformsIn C typ := by
+  intro v bs v' _ sb hs
+  rw [h v] at hs
+  cases hs
+
+private theorem natLe2_trunc (n : Nat) : natLe 2 n = putLe16 (u16 n) := by
+  rw [← natLe2]
+  simp only [natLe, u16, UInt16.toNat_ofNat', List.cons.injEq, and_true]
+  constructor <;> congr 1 <;> omega
+
+private theorem natLe4_trunc (n : Nat) : natLe 4 n = putLe32 (u32 n) := by
+  rw [← natLe4]
+  simp only [natLe, u32, UInt32.toNat_ofNat', List.cons.injEq, and_true]
+  refine ⟨?_, ?_, ?_, ?_⟩ <;> congr 1 <;> omega
+
+/-- `LOCKING_ANDX_RANGE64.Marshal` on the element of a list (`for _, x := range c.Locks`): the bytes are
+    the MS-CIFS bytes of that element (both sides keep the low 16 / 32 bits of each number) -/
+theorem range64_conforms_in : NestedConformsIn std "LOCKING_ANDX_RANGE64" := by
+  intro v bs v' h sb hs
+  simp only [std, enc, lift] at h
+  split at h
+  · rename_i a ha
+    unfold r64Of at ha
+    split at ha
+    · cases ha
+      simp only [pure', Range64.encode, Outcome.map', Outcome.ok.injEq, Prod.mk.injEq] at h
+      obtain ⟨rfl, _⟩ := h
+      simp only [nestedEnc, natLe4_trunc, natLe2_trunc, Option.some.injEq] at hs
+      exact hs
+    · cases ha
+  · cases h
+
 end Manticore.SmbCodecs
